@@ -88,3 +88,15 @@ Definition two_sched (extra : list act) : list act :=
    ACons 1 0; ACons 1 1; ACons 1 0; ACons 1 0; ACons 1 0;
    AProd (OSend 2 7); ACons 0 2].
 
+
+(* 12 actors on one dispatcher.  The consumer is held inside a posted closure (scheduler channel
+   2); one message is posted to each of the actors 1..11 and each poster calls Schedule. *)
+Definition many_hold : list dact :=
+  [DOther (OSend 2 5); DCons 0; DCons 2].
+Definition many_posts : list dact :=
+  flat_map (fun a => [DPost a (100 + a); DSched a]) [1; 2; 3; 4; 5; 6; 7; 8; 9; 10; 11].
+(* release; then the consumer takes one batch after the other (case 1 = chanTask) and the two
+   blocked posters get through as soon as there is room *)
+Definition many_drain : list dact :=
+  [DCons 0] ++
+  flat_map (fun _ => [DCons 0; DCons 1; DCons 0; DSched 10; DSched 11]) [1; 2; 3; 4; 5; 6; 7; 8; 9; 10; 11].
